@@ -356,7 +356,7 @@ fn run_case(dir: &Path, c: &Case) -> Result<Vec<&'static str>, (String, String)>
                     std::thread::sleep(Duration::from_millis(30));
                     cls[idx].sock.send(&ikind_bytes(&kind), srv.addr);
                     classes.push("stray-from-finished-endpoint");
-                    match cls[idx].sock.recv(Duration::from_millis(1000)).map(|(b, f)| (refcodec::decode(&b), f)) {
+                    match cls[idx].sock.recv(Duration::from_millis(3000)).map(|(b, f)| (refcodec::decode(&b), f)) {
                         Some((RDec::Ok(RPacket::Error { .. }), f)) if f.port() == srv.port => {}
                         other => return Err(("no-error-for-stray".into(), format!("client {} finished its transfer and then sent {:?} to the listening port; expected an ERROR from the listening port, got {:?}", idx, kind, other.map(|(d, f)| format!("{:?} from {}", d, f))))),
                     }
@@ -365,6 +365,11 @@ fn run_case(dir: &Path, c: &Case) -> Result<Vec<&'static str>, (String, String)>
         }
     }
     intr_got_error += check_intruder_inbox(&intruder, &cls, Duration::from_millis(80))?;
+    // a loaded machine: give outstanding ERROR replies a few seconds before concluding that they never come
+    let t_wait = Instant::now();
+    while intr_got_error < intr_expect_error && t_wait.elapsed() < Duration::from_secs(4) {
+        intr_got_error += check_intruder_inbox(&intruder, &cls, Duration::from_millis(300))?;
+    }
     if intr_got_error < intr_expect_error {
         return Err(("intruder-not-answered".into(), format!("{} well-formed non-request datagrams were sent to the listening port by an endpoint that owns no transfer, only {} were answered with an ERROR", intr_expect_error, intr_got_error)));
     }
